@@ -239,7 +239,25 @@ func genTTCase(t *rapid.T, maxOps int, sizes []int) ttCase {
 	nslots := rapid.IntRange(1, 4).Draw(t, "nslots")
 	slots := make([]uint64, nslots)
 	for i := range slots {
-		slots[i] = rapid.Uint64Range(0, 1<<16-1).Draw(t, "slot")
+		// slots over the whole index range of every table size used (2^26 entries at 1 GB, 2^27 at 2 GB), biased
+		// to the ends of the power-of-two blocks: the first and last slots of a table and of its halves /
+		// 32nd parts (the ageing goroutines work on such blocks)
+		switch rapid.IntRange(0, 3).Draw(t, "slotKind") {
+		case 0:
+			slots[i] = rapid.Uint64Range(0, 1<<16-1).Draw(t, "slot")
+		case 1:
+			slots[i] = rapid.Uint64Range(0, 1<<28-1).Draw(t, "slotAny")
+		default:
+			k := uint(rapid.IntRange(10, 27).Draw(t, "slotExp"))
+			d := rapid.Uint64Range(0, 3).Draw(t, "slotOff")
+			if rapid.Bool().Draw(t, "below") {
+				slots[i] = 1<<k - 1 - d
+			} else {
+				slots[i] = 1<<k + d
+			}
+			// odd multiples: the upper half / upper 32nd parts of larger tables
+			slots[i] |= rapid.Uint64Range(0, 31).Draw(t, "block") << 22
+		}
 	}
 	genKey := func() uint64 {
 		s := slots[rapid.IntRange(0, nslots-1).Draw(t, "si")]
@@ -289,7 +307,7 @@ func TestC11(t *testing.T) {
 	defer r.Finish()
 	recC11 = r
 	r.Assume("key 0 is excluded (the implementation's empty-slot sentinel; a Zobrist key is 0 with probability 2^-64)")
-	r.Assume("values in [-10000, 10000] (the storable range), depths 0..127, sizes 0..64 MB (512 MB once in thorough); a lookup miss is always allowed by the statement")
+	r.Assume("values in [-10000, 10000] (the storable range), depths 0..127, sizes 0..64 MB, a few cases at 512 MB - 1 GB (thorough: up to 4 GB); a lookup miss is always allowed by the statement")
 	r.Excluded("key==0 remapped", 0)
 
 	small := []int{0, 1, 1, 1, 2, 3}
@@ -297,7 +315,15 @@ func TestC11(t *testing.T) {
 	// all sizes: allocation dominates, fewer cases
 	sizes := []int{0, 1, 2, 3, 5, 8, 16, 31, 32, 33, 64}
 	hx.Sub(r, "machine-sizes", r.N(60, 600), func(t *rapid.T) ttCase { return genTTCase(t, 40, sizes) }, propC11)
-	if !r.Quick() && r.Shard == 0 {
-		hx.Sub(r, "machine-512MB", 2, func(t *rapid.T) ttCase { return genTTCase(t, 30, []int{512}) }, propC11)
+	// large tables (the announced Hash range goes far beyond what the small machines use): few cases, on one
+	// shard only - allocation is lazy, but ageing and clearing touch every entry
+	largeSizes := []int{512, 1024}
+	if !r.Quick() {
+		largeSizes = []int{512, 1024, 2048, 4096}
+	}
+	if r.Shard == 0 {
+		hx.Sub(r, "machine-large", r.N(8, 24), func(t *rapid.T) ttCase {
+			return genTTCase(t, 80, largeSizes)
+		}, propC11)
 	}
 }
